@@ -337,6 +337,14 @@ func step(sc *hScenario, st *hState, op hOp) *hFinding {
 		for i := range st.unread {
 			st.unread[i] = 0xEE
 		}
+		// the CONSUMED part of the backing array is not reachable through Bytes(): overwrite the whole array through the
+		// buffer's own API (Reset keeps the array; writing exactly Cap() bytes fills it from index 0 without growing),
+		// then restore the (scribbled) unread bytes.  A decoded value that is a view of consumed bytes changes here.
+		n, c := st.buf.Len(), st.buf.Cap()
+		st.buf.Reset()
+		st.buf.Write(bytes.Repeat([]byte{0xEE}, c))
+		st.buf.Reset()
+		st.buf.Write(bytes.Repeat([]byte{0xEE}, n))
 	case opMUT:
 		mutateInPlace(reflect.ValueOf(st.msgs[op.Arg]).Elem())
 		st.mvals[op.Arg] = bind.MustFrom(st.mvals[op.Arg].Type, st.msgs[op.Arg])
